@@ -519,7 +519,8 @@ def rule_bounded_closing(ctx):
         ok = hfn is not None and any(self_call(c, "dropConnection") for c in calls_in(hfn.node))
         ctx.ob(f"{scf.qualname}: closeHandshakeTimeout handler drops", ok,
                "close-handshake timer handler does not reach dropConnection", scf.loc(n.ast))
-        cond_ok = ("truth", "self.closedByMe", None, True) in facts
+        from .common import initiated_by_us
+        cond_ok = initiated_by_us(facts, scf)
         ctx.ob(f"{scf.qualname}: closeHandshakeTimeout armed when closedByMe", cond_ok,
                "close-handshake timer not armed under `closedByMe`", scf.loc(n.ast))
         # armed after state = CLOSING on the same path
